@@ -28,6 +28,12 @@ func init() {
 			"causality only: a message can be delivered once its sender emitted it; every message is eventually delivered at least once",
 			"per-party randomness is a function of (seed, case, party) only, so results are comparable across schedules",
 		},
+		Extra: func(cov map[string]interface{}) {
+			if m, ok := cov["distinct_states_by_kind"].(map[string]int); ok {
+				cov["xor_n3_delivery_orders_seen_of_720"] = m["xor3order"]
+				cov["xor_n3_note"] = "the 2-round xor protocol with 3 parties has 6 messages, all in flight from the start: 6! = 720 causally valid delivery orders; this is the part of that space reached by sampling (not an enumeration)"
+			}
+		},
 		RealStub: map[string][]string{
 			"real": {"handlers (queues, duplicate suppression, round window)", "all round code"},
 			"stub": {"network", "randomness source", "CMP key material from harness dealer", "prime search"},
@@ -79,7 +85,15 @@ func equalStrings(a, b []string) bool {
 }
 
 func runC07(c *fw.Ctx) {
-	sc := scen.DrawScenario(c, scen.ScenarioOpts{CMPPerMille: cmpRate(c, 12), AllowXor: true, MaxN: 5})
+	var sc *scen.Scenario
+	xorSweep := c.S.Draw(8, "xor3-sweep") == 7
+	if xorSweep {
+		// the deterministic 2-round protocol with 3 parties: 6 messages, 720 delivery orders, sampled uniformly
+		ids := scen.IDPool[:3]
+		sc = &scen.Scenario{Kind: scen.KXor, Proto: scen.FROST, N: 3, T: 2, IDs: ids, Parts: ids, SID: []byte(c.Label("sid", "main")), Name: "xor n=3"}
+	} else {
+		sc = scen.DrawScenario(c, scen.ScenarioOpts{CMPPerMille: cmpRate(c, 12), AllowXor: true, MaxN: 5})
+	}
 	// reference: FIFO, no faults
 	refS := scen.NewSession(c, "run", sc.Mk(), nil)
 	refS.Net.Policy = sim.FIFO{}
@@ -109,6 +123,9 @@ func runC07(c *fw.Ctx) {
 	ex.Net.Policy = sim.DrawPolicy(ex.Net)
 	ex.Net.DupRate = []int{0, 150, 500}[c.S.Draw(3, "duprate")]
 	foreignRate := []int{0, 100, 400}[c.S.Draw(3, "foreignrate")]
+	if xorSweep {
+		ex.Net.Policy, ex.Net.DupRate, foreignRate = sim.Random{}, 0, 0
+	}
 	nForeign := 0
 	if foreignRate > 0 {
 		for _, id := range forS.Order {
